@@ -2,7 +2,8 @@
 """ingest_seed.py Cxx [n]: copy /tmp/seed/Cxx/SEED into /verif/seeded/Cxx-n, remove the seeder's worktree, verify in background."""
 import json, os, shutil, subprocess, sys
 p = sys.argv[1]; n = sys.argv[2] if len(sys.argv) > 2 else "1"
-src = "/tmp/seed/%s/SEED" % p; d = "/verif/seeded/%s-%s" % (p, n); os.makedirs(d, exist_ok=True)
+wt = sys.argv[3] if len(sys.argv) > 3 else "/tmp/seed/%s" % p
+src = wt + "/SEED"; d = "/verif/seeded/%s-%s" % (p, n); os.makedirs(d, exist_ok=True)
 m = json.load(open(os.path.join(src, "meta.json")))
 dest = m.get("demo_dest")
 if not dest:
@@ -20,6 +21,6 @@ parts = [x.strip() for x in cmd.split("&&")]
 parts = [x for x in parts if not (x.startswith("cd ") or x.startswith("export ") or x.startswith("cp "))]
 m["demo_cmd"] = " && ".join(parts)
 json.dump(m, open(os.path.join(d, "meta.json"), "w"), indent=1)
-subprocess.call(["git", "-C", "/repo", "worktree", "remove", "--force", "/tmp/seed/%s" % p])
+subprocess.call(["git", "-C", "/repo", "worktree", "remove", "--force", wt])
 print("ingested", d, "| demo_dest:", dest, "| demo_cmd:", m["demo_cmd"])
-subprocess.Popen("flock /tmp/seed/verify.lock /verif/tools/verify_seed.py %s > /tmp/seed/verify_%s.log 2>&1" % (d, p), shell=True, stdin=subprocess.DEVNULL, stdout=subprocess.DEVNULL, stderr=subprocess.DEVNULL, start_new_session=True)
+subprocess.Popen("flock /tmp/seed/verify.lock /verif/tools/verify_seed.py %s > /tmp/seed/verify_%s_%s.log 2>&1" % (d, p, n), shell=True, stdin=subprocess.DEVNULL, stdout=subprocess.DEVNULL, stderr=subprocess.DEVNULL, start_new_session=True)
